@@ -36,14 +36,31 @@ fn linked_concat(lb: &mut LinkedBytes) -> Vec<u8> {
 pub struct Counting;
 pub static LIVE: std::sync::atomic::AtomicUsize = std::sync::atomic::AtomicUsize::new(0);
 pub static PEAK: std::sync::atomic::AtomicUsize = std::sync::atomic::AtomicUsize::new(0);
+/// every allocation is followed by GUARD bytes of 0xA5 which are verified when it is freed (or
+/// reallocated): a write past the end of a buffer -- what the unchecked codec would do if it wrote
+/// more than the reported size -- flips CANARY_BROKEN
+pub const GUARD: usize = 64;
+pub static CANARY_BROKEN: std::sync::atomic::AtomicUsize = std::sync::atomic::AtomicUsize::new(0);
+unsafe fn guarded(l: std::alloc::Layout) -> std::alloc::Layout {
+    std::alloc::Layout::from_size_align_unchecked(l.size() + GUARD, l.align())
+}
+unsafe fn check_guard(p: *mut u8, size: usize) {
+    for i in 0..GUARD {
+        if *p.add(size + i) != 0xA5 {
+            CANARY_BROKEN.fetch_add(1, std::sync::atomic::Ordering::Relaxed);
+            return;
+        }
+    }
+}
 unsafe impl std::alloc::GlobalAlloc for Counting {
     unsafe fn alloc(&self, l: std::alloc::Layout) -> *mut u8 {
         use std::sync::atomic::Ordering::Relaxed;
         if l.size() > (4usize << 30) {
             return std::ptr::null_mut();
         }
-        let p = std::alloc::System.alloc(l);
+        let p = std::alloc::System.alloc(guarded(l));
         if !p.is_null() {
+            std::ptr::write_bytes(p.add(l.size()), 0xA5, GUARD);
             let live = LIVE.fetch_add(l.size(), Relaxed) + l.size();
             PEAK.fetch_max(live, Relaxed);
         }
@@ -51,7 +68,26 @@ unsafe impl std::alloc::GlobalAlloc for Counting {
     }
     unsafe fn dealloc(&self, p: *mut u8, l: std::alloc::Layout) {
         LIVE.fetch_sub(l.size(), std::sync::atomic::Ordering::Relaxed);
-        std::alloc::System.dealloc(p, l)
+        check_guard(p, l.size());
+        std::alloc::System.dealloc(p, guarded(l))
+    }
+    unsafe fn realloc(&self, p: *mut u8, l: std::alloc::Layout, new_size: usize) -> *mut u8 {
+        use std::sync::atomic::Ordering::Relaxed;
+        if new_size > (4usize << 30) {
+            return std::ptr::null_mut();
+        }
+        check_guard(p, l.size());
+        let q = std::alloc::System.realloc(p, guarded(l), new_size + GUARD);
+        if !q.is_null() {
+            std::ptr::write_bytes(q.add(new_size), 0xA5, GUARD);
+            if new_size >= l.size() {
+                let live = LIVE.fetch_add(new_size - l.size(), Relaxed) + (new_size - l.size());
+                PEAK.fetch_max(live, Relaxed);
+            } else {
+                LIVE.fetch_sub(l.size() - new_size, Relaxed);
+            }
+        }
+        q
     }
 }
 #[global_allocator]
@@ -100,6 +136,8 @@ fn run_line(line: &str) -> Result<String, String> {
         "rd" => suite_rd(&mut t),
         "ard" => suite_ard(&mut t),
         "sk" => suite_sk(&mut t),
+        "urt" => suite_urt(&mut t),
+        "usk" => suite_usk(&mut t),
         "msgw" => suite_msgw(&mut t),
         "msgr" => suite_msgr(&mut t),
         "appw" => suite_appw(&mut t),
@@ -573,5 +611,154 @@ fn suite_appr(t: &mut Toks) -> Result<String, String> {
     Ok(match r {
         Err(e) => show_err(&e),
         Ok(x) => format!("ok {} {} REM {}", hex(x.message().as_bytes()), x.kind().as_i32(), b.len()),
+    })
+}
+
+/// the checked binary size of the values (sum of the length passes), computed on a checked protocol
+fn checked_size(vs: &[TVal]) -> usize {
+    let mut buf = BytesMut::new();
+    let mut p = TBinaryProtocol::new(&mut buf, false);
+    vs.iter().map(|v| len_val(&mut p, v)).sum()
+}
+
+/// urt <contig|linked|linked_zc> <slack> <rest hex> <n> v1 .. vn
+///   unchecked binary codec: size pass, a transport of EXACTLY size + slack bytes set up as the contract
+///   prescribes, encode, decode back with the unchecked reader
+///   -> W <hex> Z <zero-copy len> L <size> I <final index> R v1 .. vn REM <k> [GUARD-BROKEN] | ...
+fn suite_urt(t: &mut Toks) -> Result<String, String> {
+    use pilota::thrift::binary_unsafe::{TBinaryUnsafeInputProtocol, TBinaryUnsafeOutputProtocol};
+    let bk = parse_bk(t.next()?)?;
+    let slack = t.next_usize()?;
+    let rest = unhex(t.next()?)?;
+    let n = t.next_usize()?;
+    let mut vs = Vec::with_capacity(n);
+    for _ in 0..n {
+        vs.push(parse_val(t)?);
+    }
+    let before = CANARY_BROKEN.load(std::sync::atomic::Ordering::Relaxed);
+    let size = checked_size(&vs);
+    let (bytes, zc, usize_len, idx): (Vec<u8>, usize, usize, usize) = match bk {
+        Bk::Contig => {
+            // pre-sized transport, window over exactly the initialised bytes
+            let mut buf = BytesMut::with_capacity(size + slack);
+            buf.resize(size + slack, 0xEE);
+            let window: &'static mut [u8] = unsafe { std::slice::from_raw_parts_mut(buf.as_mut_ptr(), buf.len()) };
+            let mut p = unsafe { TBinaryUnsafeOutputProtocol::new(&mut buf, window, false) };
+            let mut len = 0;
+            for v in &vs {
+                len += len_val(&mut p, v);
+                if let Err(e) = write_val(&mut p, v, BinApi::Bytes) {
+                    return Ok(format!("WERR {}", show_err(&e)));
+                }
+            }
+            let (zc, idx) = (p.zero_copy_len(), p.index());
+            drop(p);
+            (buf[..idx.min(buf.len())].to_vec(), zc, len, idx)
+        }
+        Bk::Linked(z) => {
+            let mut lb = LinkedBytes::with_capacity(size + slack);
+            let window: &'static mut [u8] = unsafe {
+                let l = lb.bytes_mut().len();
+                std::slice::from_raw_parts_mut(lb.bytes_mut().as_mut_ptr().add(l), lb.bytes_mut().capacity() - l)
+            };
+            let mut p = unsafe { TBinaryUnsafeOutputProtocol::new(&mut lb, window, z) };
+            let mut len = 0;
+            for v in &vs {
+                len += len_val(&mut p, v);
+                if let Err(e) = write_val(&mut p, v, BinApi::Bytes) {
+                    return Ok(format!("WERR {}", show_err(&e)));
+                }
+            }
+            let (zc, idx) = (p.zero_copy_len(), p.index());
+            drop(p);
+            // the caller commits what was written since the last re-windowing
+            unsafe { bytes::BufMut::advance_mut(lb.bytes_mut(), idx) };
+            (linked_concat(&mut lb), zc, len, idx)
+        }
+    };
+    let mut out = format!("W {} Z {} L {} I {}", hex(&bytes), zc, usize_len, idx);
+    let mut input = bytes.clone();
+    input.extend_from_slice(&rest);
+    let tys: Vec<u8> = vs.iter().map(ttype_code).collect();
+    let mut b = Bytes::copy_from_slice(&input);
+    let total = b.len();
+    let (r, ridx) = {
+        let mut p = unsafe { TBinaryUnsafeInputProtocol::new(&mut b) };
+        let r = read_all(&mut p, &tys, BinApi::Bytes);
+        (r, p.index())
+    };
+    match r {
+        Err(e) => out.push_str(&format!(" RERR {}", show_err(&e))),
+        Ok(vs2) => {
+            out.push_str(" R");
+            for v in &vs2 {
+                out.push(' ');
+                show_val(&mut out, v);
+            }
+            let consumed = (total - b.len()) + ridx;
+            out.push_str(&format!(" REM {}", total - consumed));
+        }
+    }
+    // the other read flavours of the unchecked reader
+    for api in [BinApi::BytesVec, BinApi::Str, BinApi::FastStr] {
+        let mut b2 = Bytes::copy_from_slice(&input);
+        let mut p = unsafe { TBinaryUnsafeInputProtocol::new(&mut b2) };
+        let a = read_all(&mut p, &tys, api);
+        let i2 = p.index();
+        drop(p);
+        let cons2 = (total - b2.len()) + i2;
+        let mut b3 = Bytes::copy_from_slice(&input);
+        let c = read_vals(Pk::Binary, &input, &tys, BinApi::Bytes);
+        let _ = &mut b3;
+        let same = match (&a, &c) {
+            (Ok(x), Ok((y, rem))) => x == y && total - cons2 == *rem,
+            (Err(_), Err(_)) => true,
+            _ => false,
+        };
+        if !same {
+            out.push_str(&format!(" ORACLE-FAIL unchecked-read-api-{api:?}-vs-checked"));
+        }
+    }
+    // buffers are freed by now (bytes / lb dropped above or at end of scope): check again at the next case too
+    if CANARY_BROKEN.load(std::sync::atomic::Ordering::Relaxed) != before {
+        out.push_str(" GUARD-BROKEN");
+    }
+    Ok(out)
+}
+
+/// usk <ttype code> <hex> <next ttype code|->
+///   input = the value to skip followed by whatever; the harness prepends a field header (type, id 1),
+///   reads it with read_field_begin (skip() rewinds over it) and calls skip
+///   -> ok <count> REM <k> [NEXT <value> REM <k2>] | err <class>
+fn suite_usk(t: &mut Toks) -> Result<String, String> {
+    use pilota::thrift::binary_unsafe::TBinaryUnsafeInputProtocol;
+    let ty = t.next_usize()? as u8;
+    let mut input = vec![ty, 0, 1];
+    input.extend_from_slice(&unhex(t.next()?)?);
+    let next = t.next()?;
+    let next: Option<u8> = if next == "-" { None } else { Some(next.parse::<u8>().map_err(|e| e.to_string())?) };
+    let mut b = Bytes::copy_from_slice(&input);
+    let total = b.len();
+    let mut p = unsafe { TBinaryUnsafeInputProtocol::new(&mut b) };
+    let fid = p.read_field_begin().map_err(|_| "field header".to_string())?;
+    let r = p.skip(fid.field_type);
+    Ok(match r {
+        Err(e) => show_err(&e),
+        Ok(n) => {
+            let idx = p.index();
+            let nx = next.map(|nt| (read_val(&mut p, nt, BinApi::Bytes), p.index()));
+            drop(p);
+            match nx {
+                None => format!("ok {n} REM {}", b.len() - idx),
+                Some((Err(e), _)) => format!("ok {n} NEXT {}", show_err(&e)),
+                Some((Ok(v), idx2)) => {
+                    let _ = total;
+                    let mut out = format!("ok {n} NEXT ");
+                    show_val(&mut out, &v);
+                    out.push_str(&format!(" REM {}", b.len() - idx2));
+                    out
+                }
+            }
+        }
     })
 }
